@@ -40,50 +40,58 @@ Proof. intros G; inversion G; reflexivity. Qed.
 
 Lemma complete_split isl lab p d r : complete isl lab p = (d, r) -> p = d ++ r.
 Proof.
-  revert d r; induction p as [|c p IH]; simpl; intros d r E; [inversion E; reflexivity|].
-  destruct (negb (lab_eqb (c_lab c) lab)); [inversion E; reflexivity|].
+  unfold complete. destruct p as [|c p]; intros E; [inversion E; reflexivity|].
+  destruct (negb (matches lab c)); [inversion E; reflexivity|].
   destruct (is_line (c_kind c)).
-  - destruct (complete isl lab p) as [d' r'] eqn:C. inversion E; subst. simpl. f_equal. apply IH; reflexivity.
+  - destruct p as [|c2 r2]; [inversion E; reflexivity|].
+    destruct (matches lab c2 && negb (is_line (c_kind c2)) && negb isl); inversion E; reflexivity.
   - destruct isl; inversion E; reflexivity.
 Qed.
 
 Lemma complete_labels isl lab p d r : complete isl lab p = (d, r) -> forall c, In c d -> c_lab c = lab.
 Proof.
-  revert d r; induction p as [|c p IH]; simpl; intros d r E x I; [inversion E; subst; destruct I|].
-  destruct (negb (lab_eqb (c_lab c) lab)) eqn:N; [inversion E; subst; destruct I|].
-  apply negb_false_iff in N. apply lab_eqb_eq in N.
-  destruct (is_line (c_kind c)).
-  - destruct (complete isl lab p) as [d' r'] eqn:C. inversion E; subst. destruct I as [<-|I]; [reflexivity|].
-    eapply IH; [reflexivity|exact I].
-  - destruct isl; inversion E; subst; [destruct I|]. destruct I as [<-|[]]. reflexivity.
+  unfold complete. destruct p as [|c p]; intros E x I.
+  - injection E as Ed Er. subst d. destruct I.
+  - destruct (negb (matches lab c)) eqn:N; [injection E as Ed Er; subst d; destruct I|].
+    apply negb_false_iff in N. apply lab_eqb_eq in N.
+    destruct (is_line (c_kind c)).
+    + destruct p as [|c2 r2].
+      * injection E as Ed Er. subst d. destruct I as [Ex|[]]. subst x. exact N.
+      * destruct (matches lab c2 && negb (is_line (c_kind c2)) && negb isl) eqn:M; injection E as Ed Er; subst d.
+        -- apply andb_true_iff in M as [M _]. apply andb_true_iff in M as [M _]. apply lab_eqb_eq in M.
+           destruct I as [Ex|[Ex|[]]]; subst x; assumption.
+        -- destruct I as [Ex|[]]. subst x. exact N.
+    + destruct isl; injection E as Ed Er; subst d; [destruct I|]. destruct I as [Ex|[]]. subst x. exact N.
+Qed.
+
+(* a group keeps a legal shape when contexts are taken from its top *)
+Lemma own_ok_tail f a g : own_ok f (a :: g) -> own_ok f g.
+Proof.
+  intros [Hown Hshape]. split; [intros c I; apply Hown; right; exact I|].
+  destruct Hshape as [E|[[x E]|(x & y & E & Kx & Ky)]]; try discriminate.
+  - inversion E; subst. left; reflexivity.
+  - inversion E; subst. right; left; eauto.
+Qed.
+
+Lemma grouped_drop1 fs c p : grouped fs (c :: p) -> grouped fs p.
+Proof.
+  revert c p. induction fs as [|f fs IH]; intros c p G; inversion G as [|f0 fs0 g p0 Ho G0 E1 E2]; subst.
+  destruct g as [|a g].
+  - simpl in E2. subst p0. apply grouped_skip. eapply IH; exact G0.
+  - simpl in E2. inversion E2; subst. constructor; [eapply own_ok_tail; exact Ho|exact G0].
 Qed.
 
 (* removing a completed prefix leaves the store grouped *)
 Lemma complete_grouped isl lab fs p : grouped fs p -> forall d r, complete isl lab p = (d, r) -> grouped fs r.
 Proof.
-  induction 1 as [|f fs g p Ho G IH]; intros d r E.
-  - simpl in E. inversion E. constructor.
-  - destruct Ho as [Hown Hshape].
-    destruct Hshape as [->|[[a ->]|(a & b & -> & Ka & Kb)]].
-    + simpl in E. apply grouped_skip. eapply IH; exact E.
-    + simpl in E. destruct (negb (lab_eqb (c_lab a) lab)).
-      * inversion E; subst. change (a :: p) with ([a] ++ p). constructor; [split; [exact Hown|right; left; eauto]|exact G].
-      * destruct (is_line (c_kind a)).
-        -- destruct (complete isl lab p) as [d' r'] eqn:C. inversion E; subst. apply grouped_skip. eapply IH; reflexivity.
-        -- destruct isl; inversion E; subst.
-           ++ change (a :: p) with ([a] ++ p). constructor; [split; [exact Hown|right; left; eauto]|exact G].
-           ++ apply grouped_skip; exact G.
-    + assert (La : c_lab a = f_lab f) by (apply Hown; left; reflexivity).
-      assert (Lb : c_lab b = f_lab f) by (apply Hown; right; left; reflexivity).
-      assert (Keep : grouped (f :: fs) ([a; b] ++ p)).
-      { constructor; [split; [exact Hown|right; right; exists a, b; auto]|exact G]. }
-      simpl in E. rewrite La in E. destruct (negb (lab_eqb (f_lab f) lab)) eqn:N.
-      * inversion E; subst. exact Keep.
-      * rewrite Ka in E. simpl in E. rewrite Lb, N, Kb in E. simpl in E.
-        destruct isl; inversion E; subst.
-        -- change (b :: p) with ([b] ++ p). constructor; [|exact G].
-           split; [intros c [<-|[]]; apply Hown; right; left; reflexivity | right; left; eauto].
-        -- apply grouped_skip; exact G.
+  intros G d r E. unfold complete in E. destruct p as [|c p]; [injection E as _ <-; exact G|].
+  destruct (negb (matches lab c)); [injection E as _ <-; exact G|].
+  destruct (is_line (c_kind c)).
+  - destruct p as [|c2 r2]; [injection E as _ <-; apply grouped_drop1 in G; exact G|].
+    destruct (matches lab c2 && negb (is_line (c_kind c2)) && negb isl); injection E as _ <-.
+    + apply grouped_drop1 in G. apply grouped_drop1 in G. exact G.
+    + apply grouped_drop1 in G. exact G.
+  - destruct isl; injection E as _ <-; [exact G|apply grouped_drop1 in G; exact G].
 Qed.
 
 (* at a return or exception event of the running invocation, everything it owns is completed *)
@@ -92,14 +100,18 @@ Lemma complete_top_consumed f fs p d r :
 Proof.
   intros G E. inversion G as [|f0 fs0 g p0 [Hown Hshape] G0]; subst.
   destruct Hshape as [->|[[a ->]|(a & b & -> & Ka & Kb)]].
-  - simpl in E. eapply complete_grouped; eauto.
+  - simpl app in E. eapply complete_grouped; eauto.
   - assert (La : c_lab a = f_lab f) by (apply Hown; left; reflexivity).
-    simpl in E. rewrite La, lab_eqb_refl in E. simpl in E. destruct (is_line (c_kind a)).
-    + destruct (complete false (f_lab f) p0) as [d' r'] eqn:C. inversion E; subst. eapply complete_grouped; eauto.
+    simpl app in E. unfold complete in E. unfold matches in E at 1. rewrite La, lab_eqb_refl in E. simpl negb in E. cbn iota in E.
+    destruct (is_line (c_kind a)).
+    + destruct p0 as [|c2 r2]; [inversion E; subst; exact G0|].
+      match type of E with (if ?b then _ else _) = _ => destruct b end; inversion E; subst.
+      * apply grouped_drop1 in G0. exact G0.
+      * exact G0.
     + inversion E; subst. exact G0.
   - assert (La : c_lab a = f_lab f) by (apply Hown; left; reflexivity).
     assert (Lb : c_lab b = f_lab f) by (apply Hown; right; left; reflexivity).
-    simpl in E. rewrite La, lab_eqb_refl, Ka in E. simpl in E. rewrite Lb, lab_eqb_refl, Kb in E. simpl in E.
+    simpl app in E. unfold complete in E. unfold matches in E. rewrite La, Lb, lab_eqb_refl, Ka, Kb in E. simpl in E.
     inversion E; subst. exact G0.
 Qed.
 
@@ -111,16 +123,18 @@ Lemma complete_line_top f fs p d r :
 Proof.
   intros G E. inversion G as [|f0 fs0 g p0 [Hown Hshape] G0]; subst.
   destruct Hshape as [->|[[a ->]|(a & b & -> & Ka & Kb)]].
-  - simpl in E. exists [], r. split; [reflexivity|]. split; [eapply complete_grouped; eauto|left; reflexivity].
+  - simpl app in E. exists [], r. split; [reflexivity|]. split; [eapply complete_grouped; eauto|left; reflexivity].
   - assert (Oa : c_owner a = f_inv f /\ c_lab a = f_lab f) by (apply Hown; left; reflexivity).
-    destruct Oa as [Oa La]. simpl in E. rewrite La, lab_eqb_refl in E. simpl in E. destruct (c_kind a) eqn:Ka; simpl in E.
-    + destruct (complete true (f_lab f) p0) as [d' r'] eqn:C. inversion E; subst.
-      exists [], r. split; [reflexivity|]. split; [eapply complete_grouped; eauto|left; reflexivity].
+    destruct Oa as [Oa La]. simpl app in E. unfold complete in E. unfold matches in E at 1. rewrite La, lab_eqb_refl in E.
+    simpl negb in E. cbn iota in E. destruct (c_kind a) eqn:Ka; simpl is_line in E; cbn iota in E.
+    + destruct p0 as [|c2 r2]; [inversion E; subst; exists [], []; split; [reflexivity|]; split; [exact G0|left; reflexivity]|].
+      rewrite andb_false_r in E. inversion E; subst.
+      exists [], (c2 :: r2). split; [reflexivity|]. split; [exact G0|left; reflexivity].
     + inversion E; subst. exists [a], p0. split; [reflexivity|]. split; [exact G0|]. right. exists a. auto.
   - assert (La : c_lab a = f_lab f) by (apply Hown; left; reflexivity).
     assert (Ob : c_owner b = f_inv f /\ c_lab b = f_lab f) by (apply Hown; right; left; reflexivity).
     destruct Ob as [Ob Lb].
-    simpl in E. rewrite La, lab_eqb_refl, Ka in E. simpl in E. rewrite Lb, lab_eqb_refl, Kb in E. simpl in E.
+    simpl app in E. unfold complete in E. unfold matches in E. rewrite La, Lb, lab_eqb_refl, Ka, Kb in E. simpl in E.
     inversion E; subst. exists [b], p0. split; [reflexivity|]. split; [exact G0|]. right. exists b. auto.
 Qed.
 
